@@ -153,6 +153,10 @@ def run_for_property(prop, tier="quick", only=None, jobs=4):
             r.update({"unit": u["id"], "bound": h.get("bound", ""), "kind": h.get("kind", "bounded"), "props": h.get("props", u["props"]), "implicit": u.get("implicit", []), "clause": h.get("clause", "")})
             if r["status"] == "fail":
                 r["playback"] = playback(dst, h["name"])
+                try:
+                    r["native_replay"] = native_replay(u, h["name"], r["playback"])
+                except Exception as e:  # never let the replay machinery change a verdict
+                    r["native_replay"] = {"status": "error", "detail": repr(e)[:300]}
             return r
         if todo:
             # the dependencies are warm (pv setup); cargo serialises the crate builds on its build-directory lock,
@@ -165,6 +169,59 @@ def run_for_property(prop, tier="quick", only=None, jobs=4):
             lockf.close()
         except Exception:
             pass
+        shutil.rmtree(scratch, ignore_errors=True)
+
+
+REPLAY_TARGET = os.path.join(CACHE, "replay-target")
+
+
+def native_replay(unit, harness, playback_text, timeout=1500):
+    """Run the harness body NATIVELY on the concrete values of a Kani counterexample: scratch copy of the whole
+    workspace of PV_REPO, the unit's harness module compiled under #[cfg(test)] against kani/shim (a stand-in for the
+    kani crate that replays the values), ordinary `cargo test`. Returns dict(status=reproduced|not-reproduced|error)."""
+    vals = []
+    m = re.search(r"let concrete_vals: Vec<Vec<u8>> = vec!\[(.*?)\n\s*\];", playback_text or "", flags=re.S)
+    if not m:
+        return {"status": "error", "detail": "no concrete values in the playback text"}
+    for vm in re.finditer(r"vec!\[([0-9,\s]*)\]", m.group(1)):
+        vals.append([int(x) for x in vm.group(1).replace(" ", "").split(",") if x != ""])
+    fn = harness.split("::")[-1]
+    scratch = tempfile.mkdtemp(prefix="pv-replay-", dir=SCRATCH_PARENT)
+    try:
+        dst = os.path.join(scratch, "ws")
+        shutil.copytree(REPO, dst, ignore=shutil.ignore_patterns("target", ".git"))
+        shutil.copy(os.path.join(VERIF, "kani", "shim", "pv_kani_shim.rs"), os.path.join(dst, "src", "pv_kani_shim.rs"))
+        with open(os.path.join(dst, "src", "lib.rs"), "a") as fh:
+            fh.write("\n#[cfg(test)]\n#[allow(missing_docs)]\nmod pv_kani_shim;\n")
+        mod = unit["module"]
+        mod = mod.replace("#[cfg(kani)]", "#[cfg(test)]")
+        mod = re.sub(r"#\[kani::(proof|unwind\([^)]*\)|solver\([^)]*\)|should_panic)\]", "", mod)
+        test = ("\n    #[test]\n    fn pv_native_replay_%s() {\n        crate::pv_kani_shim::load(vec![%s]);\n        %s();\n    }\n"
+                % (fn, ", ".join("vec![%s]" % ", ".join(str(b) for b in v) for v in vals), fn))
+        k = mod.rstrip().rfind("}")
+        mod = mod[:k] + test + "}\n"
+        mod = re.sub(r"(mod\s+\w+\s*\{)", r"\1\n    #[allow(unused_imports)] use crate::pv_kani_shim as kani;", mod, count=1)
+        with open(os.path.join(dst, unit["file"]), "a") as fh:
+            fh.write("\n// ---- native replay of a Kani counterexample (unit %s)\n%s\n" % (unit["id"], mod))
+        env = dict(os.environ, CARGO_NET_OFFLINE="true", CARGO_TARGET_DIR=REPLAY_TARGET)
+        cmd = ["cargo", "test", "--offline", "-p", "polytune", "--lib", "pv_native_replay_" + fn, "--", "--nocapture"]
+        try:
+            r = subprocess.run(cmd, cwd=dst, env=env, stdout=subprocess.PIPE, stderr=subprocess.STDOUT, text=True, timeout=timeout)
+        except subprocess.TimeoutExpired:
+            return {"status": "error", "detail": "timeout", "cmd": " ".join(cmd)}
+        out = r.stdout
+        msg = re.search(r"PV-REPLAY-ASSERTION-FAILED: ([^\n']*)", out)
+        if msg:
+            return {"status": "reproduced", "detail": "the harness body, run natively on the real code with these values, fails: " + msg.group(1).strip(), "cmd": " ".join(cmd), "values": vals}
+        if "PV-REPLAY-ASSUMPTION-VIOLATED" in out:
+            return {"status": "error", "detail": "replayed values violate an assumption of the harness", "cmd": " ".join(cmd)}
+        pm = re.search(r"panicked at ([^\n]*)\n([^\n]*)", out)
+        if pm and "test result: FAILED" in out:
+            return {"status": "reproduced", "detail": "the real code panics natively on these values: %s %s" % (pm.group(1)[:200], pm.group(2)[:200]), "cmd": " ".join(cmd), "values": vals}
+        if "test result: ok" in out:
+            return {"status": "not-reproduced", "detail": "the natively executed harness passes on these values", "cmd": " ".join(cmd), "values": vals}
+        return {"status": "error", "detail": out[-1500:], "cmd": " ".join(cmd)}
+    finally:
         shutil.rmtree(scratch, ignore_errors=True)
 
 
